@@ -61,8 +61,7 @@ def run_dload(chk, rng, ncases):
     nitems = 0
     for r in results:
         if 'error' in r:
-            chk.violation(dict(stage='dload', exception=r['error']['exception'], raised_in=r['error']['raised_in']),
-                          'real code raised %s: %s' % (r['error']['exception'], r['error']['message']), r.get('spec'))
+            report_error(chk, 'dload', r)
             continue
         kinds = sorted(set(it['cls'] for it in r['items']))
         chk.add_case(json.dumps(r['spec'], sort_keys=True), len(kinds) > 1,
@@ -115,8 +114,7 @@ def run_oracle(chk, rng, ncases):
             continue
         for x in r['results']:
             if 'error' in x:
-                chk.violation(dict(stage='c08-oracle', exception=x['error']['exception'], raised_in=x['error']['raised_in']),
-                              'real code raised %s: %s' % (x['error']['exception'], x['error']['message']), x.get('spec'))
+                report_error(chk, 'c08-oracle', x)
                 continue
             n += 1
             chk.add_case('or:' + json.dumps(x['spec'], sort_keys=True), True,
@@ -142,8 +140,7 @@ def run(tier, seed):
     for r, o, mt in out:
         chk.add_case(json.dumps(r['spec'], sort_keys=True), len(o['att']) > 0)
     for r in errs:
-        chk.violation(dict(stage='lin', exception=r['error']['exception'], raised_in=r['error']['raised_in']),
-                      'real code raised %s: %s' % (r['error']['exception'], r['error']['message']), r.get('spec'))
+        report_error(chk, 'lin', r)
     run_dload(chk, rng, 32 if tier == 'quick' else 300)
     nor = 16 if (tier == 'quick' and not chk.broken) else (48 if tier == 'quick' else 200)
     run_oracle(chk, rng, nor)
